@@ -186,6 +186,8 @@ from . import initial
 
 from . import casts
 
+from . import removals
+
 OBLIGATIONS = [
     ('C13.O1', 'builder boundary', 'start_synctest_session builds a session exactly under check_dist < max_prediction & !sparse_saving, InvalidRequest otherwise.', o1),
     ('C13.O2', 'compare, then roll back, every call', 'under exactly check_distance > 0 & current > check_distance the comparison over [current - cd, current] precedes '
@@ -197,4 +199,5 @@ OBLIGATIONS = [
     ('C13.H', 'helpers the rules above rely on', 'the bodies of the helpers named by this property\'s rules compute what the rules assume (get_cell, cell_accessors, saved_state_by_frame); see rules/helpers.py', helpers.bundle('get_cell', 'cell_accessors', 'saved_state_by_frame')),
     ('C13.I', 'initial state', 'every constructor gives the fields this property\'s rules interpret (NULL_FRAME = none / nothing yet, 0 = first frame, latches open, typestate start) the value listed in tables/initial_state.json; every field compared with NULL_FRAME anywhere is listed; see rules/initial.py', initial.rule_for('C13')),
     ('C13.C', 'lossy integer casts', 'every sign-changing cast (signed -> unsigned; NULL_FRAME is -1) and every narrowing cast to < 32 bits or from 128 bits in the crate is in range by a dominating guard, by the shape of its operand, or listed with a reason in tables/casts.json; see rules/casts.py', casts.rule),
+    ('C13.R', 'who may remove', 'every call that takes elements out of a collection this property\'s rules rely on (keyed removal from a map, or bulk / positional removal) is one of the reviewed sites in tables/removals.json; a lookup turned into a removal, a second prune, a clear on another path is reported; see rules/removals.py', removals.rule_for('C13')),
 ]
